@@ -10,7 +10,8 @@ Oracle:
   * termination: a watchdog inside the child ends it (exit status 97) when one input has used more CPU time than
     200 x the median cost of the pipeline on a trivial program (>= 10 s; the cost is dominated by the standard
     library, which is re-parsed for every input, so one size class suffices for inputs <= 64 KiB); such an input
-    is re-run alone with 10 x that bound, and only a second overrun is a violation (c06:nontermination),
+    is re-run alone with 10 x that bound, and only a second overrun is a violation (c06:nontermination:<stage>,
+    stage = parse | check_program | diagnostics | render | emit_program: the stage that did not end),
     otherwise the input is reported inconclusive-slow. A child that dies of an allocation failure at its 3 GiB
     address-space bound (parser loops allocate on every iteration) and does so again when the input is run alone
     is reported under the same key. Wall-clock time is never a verdict;
@@ -134,10 +135,14 @@ def harness_alone(ctx, idx, count, fams, extra_kv, tag):
                     bad.append(o)
     except OSError:
         pass
-    shutil.rmtree(d, ignore_errors=True)
     full = p.stdout.decode("utf-8", "replace")
     m = re.search(r"memory allocation of \d+ bytes failed", full)
-    return p.returncode, ((m.group(0) + " ... ") if m else "") + full[-1500:], bad
+    try:
+        stage = open(os.path.join(d, "cur_0.stage")).read().strip() or "unknown"    # stage the child was in when it ended
+    except OSError:
+        stage = "unknown"
+    shutil.rmtree(d, ignore_errors=True)
+    return p.returncode, "[stage %s] " % stage + ((m.group(0) + " ... ") if m else "") + full[-1500:], bad
 
 
 def run_cli(ctx, clidir, dora):
@@ -219,7 +224,8 @@ def replay(ctx):
     ctx.observe("replay")
     ctx.min_distinct = 1
     if p.returncode == EXIT_SLOW:
-        ctx.violation("c06:nontermination", "replayed input exceeded the CPU-time bound: %s" % p.stdout[-300:])
+        m = re.search(r"stage=([a-z_]+)", p.stdout)
+        ctx.violation("c06:nontermination:%s" % (m.group(1) if m else "unknown"), "replayed input exceeded the CPU-time bound: %s" % p.stdout[-300:])
         return
     if p.returncode != 0:
         ctx.violation("c06:child-death:rc=%d" % p.returncode, "replayed input killed the harness: %s" % (p.stdout + p.stderr)[-600:])
@@ -264,6 +270,8 @@ def run(ctx):
     bases = opts.get("bases", "all")
     base_kv = {"bases": bases}
     kv = {"families": fams, "bases": bases, "cli_every": cli_every if with_cli else 0, "clidir": clidir}
+    if "cpu_limit_ms" in opts:      # development aid: fixed CPU bound instead of 200 x the calibrated cost
+        kv["cpu_limit_ms"] = int(opts["cpu_limit_ms"])
     r = inproc.run_sharded("vh-front", "front", ctx.seed, count, "c06", timeout=ctx.pick(1800, 3600), kv=kv)
 
     # ---- in-process results -------------------------------------------------------------------------------
@@ -330,21 +338,23 @@ def run(ctx):
     def verdict_of_alone_run(d, rc, out, bad, limit_note):
         """Classifies the outcome of running case d alone (shared by the slow and the dead class)."""
         idx = d["idx"]
+        m = re.match(r"\[stage ([a-z_]+)\]", out or "")
+        stage = m.group(1) if m else "unknown"
         if rc is None:
             ctx.inconc("case %s: the re-run alone hit the wall-clock watchdog" % idx)
         elif rc == EXIT_SLOW:
-            ctx.violation("c06:nontermination",
-                          "case %s does not terminate within the CPU-time bound when run alone %s: %s" % (idx, limit_note, out[-200:]),
+            ctx.violation("c06:nontermination:%s" % stage,
+                          "case %s: stage `%s` does not terminate within the CPU-time bound when run alone %s: %s" % (idx, stage, limit_note, out[-200:]),
                           files={"input.dora": d["input"]})
         elif rc != 0 and "memory allocation of" in (out or ""):
-            ctx.violation("c06:nontermination",
-                          "case %s exhausted the 3 GiB address-space bound of the harness child when run alone (unbounded allocation, "
-                          "i.e. a loop that does not terminate; a normal input needs < 0.5 GiB): %s" % (idx, out[-300:]),
+            ctx.violation("c06:nontermination:%s" % stage,
+                          "case %s: stage `%s` exhausted the 3 GiB address-space bound of the harness child when run alone (unbounded "
+                          "allocation, i.e. a loop that does not terminate; a normal input needs < 0.5 GiB): %s" % (idx, stage, out[:300]),
                           files={"input.dora": d["input"]})
         elif rc != 0:
             ctx.violation("c06:child-death:rc=%s" % rc,
-                          "the front end ended the process (rc=%s; abort / stack overflow) on case %s: %s"
-                          % (rc, idx, (out or d["log"])[-500:]), files={"input.dora": d["input"]})
+                          "the front end ended the process in stage `%s` (rc=%s; abort / stack overflow) on case %s: %s"
+                          % (stage, rc, idx, (out or d["log"])[-500:]), files={"input.dora": d["input"]})
         else:
             return False    # ran to completion
         return True
@@ -357,7 +367,8 @@ def run(ctx):
     for d, limit, (rc, out, bad) in execu.pmap(recheck_slow, slow, workers=4):
         ctx.observe("slow%d" % d["idx"])
         ctx.count("slow_inputs")
-        note = "(%d ms, i.e. 2000 x the cost of a trivial program; %d ms in the sharded run)" % (limit * 10, limit)
+        note = "(%d ms = 10 x the bound of the sharded run, which was %d ms%s)" % (
+            limit * 10, limit, "" if "cpu_limit_ms" in opts else " = 200 x the cost of a trivial program")
         if not verdict_of_alone_run(d, rc, out, bad, note):
             ctx.inconc("case %d: slower than %d ms CPU in the sharded run but finished within %d ms when run alone" % (d["idx"], limit, limit * 10))
             for o in bad:
